@@ -130,6 +130,36 @@ def Table.sortOn (t : Table) (on : List String) : Res Table :=
       .tuple [.dict (sel.map fun c => (c.1, .cell (c.2.getD i .none)))]
     pure (t.gatherRows (sortIdx keys))
 
+/-- lines 202-209 of `join`: the table inputs (after `_item`) reduced to one table — `tbl1` = product
+of the tables without default, `tbl_def2` = outer join of the tables with default, then
+`_join_dictable_with_defaults((tbl1, {}), tbl_def2)`.  `defaults`: already restricted to the inputs. -/
+def joinTables (tables : List (String × Table)) (defaults : List (String × Cell)) :
+    Option (Res (Option Table)) :=
+  let isDef (k : String) : Bool := (defaults.map (·.1)).contains k
+  let noDef := (tables.filter fun kv => !isDef kv.1).map (·.2)
+  let withDef : List TblDef := (tables.filter fun kv => isDef kv.1).map fun kv =>
+    (some kv.2, defaults.filter fun d => d.1 == kv.1)
+  -- tbl1 = reducer(mul, no_defaults.values())
+  let tbl1 : Option (Res (Option Table)) := match noDef with
+    | [] => some (.ok none)
+    | d :: ds => match foldOR Table.mul d ds with
+      | some (.ok t) => some (.ok (some t))
+      | some (.error e) => some (.error e)
+      | none => none
+  -- tbl_def2 = reducer(_join_dictable_with_defaults, pairs, (None, None))
+  let tblDef2 : Option (Res TblDef) := match withDef with
+    | [] => some (.ok (none, []))
+    | p :: ps => foldOR joinDef p ps
+  match tbl1, tblDef2 with
+  | some (.ok t1), some (.ok td2) =>
+    match joinDef (t1, []) td2 with
+    | some (.ok (r, _)) => some (.ok r)
+    | some (.error e) => some (.error e)
+    | none => none
+  | some (.error e), _ => some (.error e)
+  | _, some (.error e) => some (.error e)
+  | _, _ => none
+
 /-- `join(inputs, on, defaults)` (lines 195-211); `inputs` in dict order.
 `none`: a step the model does not cover (never for generated inputs). -/
 def pdJoin (inputs : List (String × PInput)) (on : List String) (defaults : List (String × Cell)) :
@@ -148,31 +178,11 @@ def pdJoin (inputs : List (String × PInput)) (on : List String) (defaults : Lis
       | .table d => some (kv.1, d)
       | .scalar _ => none
     if tables.isEmpty then some (.ok (scalars.map fun kv => (kv.1, [kv.2]))) else
-    let isDef (k : String) : Bool := (defaults.map (·.1)).contains k
-    let noDef := (tables.filter fun kv => !isDef kv.1).map (·.2)
-    let withDef : List TblDef := (tables.filter fun kv => isDef kv.1).map fun kv =>
-      (some kv.2, defaults.filter fun d => d.1 == kv.1)
-    -- tbl1 = reducer(mul, no_defaults.values())
-    let tbl1 : Option (Res (Option Table)) := match noDef with
-      | [] => some (.ok none)
-      | d :: ds => match foldOR Table.mul d ds with
-        | some (.ok t) => some (.ok (some t))
-        | some (.error e) => some (.error e)
-        | none => none
-    -- tbl_def2 = reducer(_join_dictable_with_defaults, pairs, (None, None))
-    let tblDef2 : Option (Res TblDef) := match withDef with
-      | [] => some (.ok (none, []))
-      | p :: ps => foldOR joinDef p ps
-    match tbl1, tblDef2 with
-    | some (.ok t1), some (.ok td2) =>
-      match joinDef (t1, []) td2 with
-      | some (.ok (some d, _)) => some ((d.setConsts scalars).sortOn on)
-      | some (.ok (none, _)) => none
-      | some (.error e) => some (.error e)
-      | none => none
-    | some (.error e), _ => some (.error e)
-    | _, some (.error e) => some (.error e)
-    | _, _ => none
+    match joinTables tables defaults with
+    | some (.ok (some d)) => some ((d.setConsts scalars).sortOn on)
+    | some (.ok none) => none
+    | some (.error e) => some (.error e)
+    | none => none
 
 /-! ### `perdictable(f, on = …, defaults = …)(**inputs)` -/
 
